@@ -1,6 +1,7 @@
 package verifsim
 
 import (
+	"encoding/binary"
 	"errors"
 	"fmt"
 	"math/rand/v2"
@@ -24,6 +25,11 @@ type C08Present struct {
 	Alter int `json:"alter"`
 	// N: number of tasks presenting simultaneously (>=1)
 	N int `json:"n"`
+	// Junk > 0: instead of the captured packet, that many distinct other first
+	// packets (copies with another ephemeral key: a keyless flood of probes,
+	// each remembered by the server before it fails to decrypt) arrive one
+	// after the other at this instant
+	Junk int `json:"junk,omitempty"`
 }
 
 type C08Scenario struct {
@@ -79,6 +85,18 @@ func genC08History(g *Gen) any {
 	}
 	if g.Bool(0.4) {
 		sc.FirstN = g.Int(2, 16)
+	}
+	if sc.Seed%40 == 7 && !sc.WS {
+		// a flood of other first packets between the first presentation and a
+		// replay that is still inside the window of a client whose clock runs ahead
+		skew := int64(g.Int(100000, 170000))
+		sc.Client.SkewMS = skew
+		sc.FirstN = 0
+		sc.Presents = []C08Present{
+			{AtMS: int64(g.Int(181000, 186000)), Alter: -1, N: 1, Junk: g.Pick(16400, 16400, 17000, 2000)},
+			{AtMS: int64(g.Int(187000, 179000+int(skew)/1000*1000)), Alter: -1, N: g.Pick(1, 1, 4)},
+		}
+		return sc
 	}
 	if g.Bool(0.15) {
 		// many simultaneous first presentations at the very instant a clean-up
@@ -190,6 +208,26 @@ func runC08(c *Ctx, scAny any) {
 		for _, p := range ps {
 			if d := time.Duration(p.AtMS)*time.Millisecond - time.Since(base); d > 0 {
 				Sleep(d)
+			}
+			if p.Junk > 0 {
+				if sc.WS {
+					continue
+				}
+				ch, perr := parseClientHello(pkt)
+				if perr != nil {
+					c.Fail("setup", "hello", "%v", perr)
+					return
+				}
+				j := append([]byte(nil), pkt...)
+				simsync.AtomicEnter() // nothing else happens during the flood: no scheduling points
+				for i := 0; i < p.Junk; i++ {
+					// another "ephemeral key" (the top bit stays as it was)
+					binary.BigEndian.PutUint32(j[ch.RandomOff+4:], uint32(i+1))
+					server.AuthFirstPacket(append([]byte(nil), j...), tr, w.Sta)
+				}
+				simsync.AtomicLeave()
+				c.Probe("junk_flood")
+				continue
 			}
 			present(p.Alter, p.N)
 		}
